@@ -465,7 +465,7 @@ func TestVX_C16_Chain(t *testing.T) {
 
 // TestVX_C16_MultiSelect: the masked table selection returns exactly entry bits-1 (or the fallback) for every selector.
 func TestVX_C16_MultiSelect(t *testing.T) {
-	r := vx.Begin("C16", "multiselect", "SM2Element.MultiSelect for table widths {1,2,15,31,63,127,255} and every selector value 0..255: the result is entry bits-1 when 1<=bits<=width, the fallback element when the fallback condition is 0, else zero-or-entry exactly as the masked OR defines; table entries carry carry-critical limbs. Finite space enumerated completely")
+	r := vx.Begin("C16", "multiselect", "SM2Element.MultiSelect for table widths {1,2,15,31,63,127,255} and every selector value 0..255: the result is entry bits-1 when 1<=bits<=width, the fallback element when the fallback condition is 0, else zero-or-entry exactly as the masked OR defines; table entries carry carry-critical limbs; the same selection into an element whose encoding / zero test / big-integer form had been used before (every view follows the new value); destination element backing an entry of the table itself (widths <= 31, every (destination, selector) pair). Finite space enumerated completely")
 	defer r.End()
 	for _, width := range []int{1, 2, 15, 31, 63, 127, 255} {
 		tab := make([]*[4]uint64, width)
@@ -490,8 +490,43 @@ func TestVX_C16_MultiSelect(t *testing.T) {
 				if *out.GetRaw() != want {
 					r.Violation(fmt.Sprintf("fe:multiselect:width%d", width), fmt.Sprintf("MultiSelect(width %d, bits %d, fallbackCond %d) = %x, masked selection defines %x", width, bits, fbc, *out.GetRaw(), want), map[string]int{"width": width, "bits": bits, "fbc": fbc})
 				}
+				// the same selection into an element that has a past: it held another value whose encoding, zero test and
+				// big-integer form were already asked for - every view of the element must follow the new value
+				var used, fresh fiat.SM2Element
+				used.SetRaw([4]uint64{0x1111, 0x2222, 0x3333, 0x4444})
+				used.Bytes()
+				used.IsZero()
+				used.ToBigInt()
+				used.Equal(&fb)
+				used.MultiSelect(&tab, width, byte(bits), &fb, fbc)
+				fresh.SetRaw(want)
+				if !bytes.Equal(used.Bytes(), fresh.Bytes()) || used.IsZero() != fresh.IsZero() || used.ToBigInt().Cmp(fresh.ToBigInt()) != 0 || used.Equal(&fresh) != 1 {
+					r.Violation("fe:multiselect:stale-view-after-select", fmt.Sprintf("after MultiSelect into an element whose Bytes/IsZero/ToBigInt/Equal had been used before, they still describe the old value (width %d, bits %d): Bytes %x, limbs encode %x", width, bits, used.Bytes(), fresh.Bytes()), map[string]int{"width": width, "bits": bits, "fbc": fbc})
+				}
 				r.Shape(fmt.Sprintf("ms:%d:%d:%d", width, bits, fbc))
 			}
+		}
+		// the destination is itself a member of the table (a table of references into live elements, as the point-table
+		// transformation builds them): selecting entry j into element j must leave it what it was, selecting entry i into
+		// element j must make it entry i
+		if width <= 31 {
+			for j := 0; j < width; j++ {
+				for i := 0; i < width; i++ {
+					r.Eval(1)
+					elems := make([]fiat.SM2Element, width)
+					mt := make([]*[4]uint64, width)
+					for k := range elems {
+						elems[k].SetRaw(*tab[k])
+						mt[k] = elems[k].GetRaw()
+					}
+					var fb fiat.SM2Element
+					elems[j].MultiSelect(&mt, width, byte(i+1), &fb, 1)
+					if *elems[j].GetRaw() != *tab[i] {
+						r.Violation("fe:multiselect:destination-in-table", fmt.Sprintf("MultiSelect of entry %d into the element that backs entry %d of the same table (width %d) gives %x, entry is %x", i, j, width, *elems[j].GetRaw(), *tab[i]), map[string]int{"width": width, "dst": j, "bits": i + 1})
+					}
+				}
+			}
+			r.Shape(fmt.Sprintf("ms-self:%d", width))
 		}
 		r.Sample(map[string]int{"width": width})
 	}
